@@ -475,6 +475,7 @@ func (w *World) startNode(n *Node) {
 	n.ctx, n.cancel = context.WithCancel(context.Background())
 	n.lh = leanhelix.NewLeanHelix(cfg, n.onCommit, n.onNewRound)
 	n.lh.Run(n.ctx)
+	synctest.Wait() // the new loops come to rest before the harness touches anything else
 	w.ev("start n%d epoch%d", n.idx, n.epoch)
 }
 
